@@ -4,6 +4,7 @@ Decided: L1 no live drop of a message or of an un-exhausted source, L2 no clone,
 container/iterator operation, K3 index/return pairing, L6 end-of-stream discipline, O1 key-based
 heap comparator.  Not decided: ordering by reception time (heap semantics), tie behaviour."""
 import re
+import guards
 from cfg import CFG
 from expr import ExprBuilder, show, walk
 import own, lin, pairing, comparators
@@ -62,6 +63,8 @@ def run(F, chk):
     # K3 + L6 on the two `next` implementations
     K3 = chk.rule('K3', 'every Some(msg) return stores the pre-increment self.index into msg.index and increments exactly once; other returns do neither')
     L6 = chk.rule('L6', 'None is returned only after the container of sources reported exhaustion; an exhausted current source leads to advance-and-retry')
+    L8 = chk.rule('L8', 'a container of sources is dropped by the constructors only behind a proof that it holds exactly the one source taken (len() == 1 / exact size_hint)')
+    check_single_source_shortcut(F, L8)
     nexts = [b for b in bodies if b.impl_trait == 'std::iter::Iterator' and b.path.endswith('::next')]
     K3.floor('Iterator::next impls of multi-source iterators', len(nexts), 2)
     for b in nexts:
@@ -185,3 +188,46 @@ def check_eos(body, L6):
 def _is_current_source(key):
     # a take on the boxed current source looks like (1, '*', f cur_it, dc Some, f 0 [, '*'])
     return any(e[0] == 'dc' for e in key[1:])
+
+
+# ---------------------------------------------------------------------------------------------
+# L8: the single-source shortcut
+
+SRC_CONTAINER = re.compile(r'(^O$|Vec<std::boxed::Box<dyn std::iter::Iterator<Item = adlt::dlt::DltMessage>|IntoIter<std::boxed::Box<dyn std::iter::Iterator<Item = adlt::dlt::DltMessage>)')
+
+
+def check_single_source_shortcut(F, L8):
+    """`new_or_single_it` returns the only source unwrapped and lets the container of sources go.  Dropping that container
+    discards every source still in it, so each normal-path drop of the container must be dominated by a proof that it
+    holds nothing else: `len() == 1`, or `size_hint() == (1, Some(1))` (exact: lower == upper) before the one `next()`,
+    or `size_hint() == (0, Some(0))` after it.  A test of the lower bound alone proves nothing for filter/flat_map."""
+    n = 0
+    for b in F.order:
+        if b.crate != 'lib' or b.kind == 'closure' or 'sorting_multi_readeriterator' not in b.path or '::tests::' in b.path:
+            continue
+        if not b.ret_type().startswith('std::boxed::Box<dyn std::iter::Iterator<Item = adlt::dlt::DltMessage>'):
+            continue
+        cfg = CFG(b)
+        E = ExprBuilder(cfg, fold_named=True)
+        for blk in b.blocks:
+            if blk.cleanup or blk.term.k != 'drop':
+                continue
+            pl = blk.term.place
+            if pl is None or not pl.is_local or not SRC_CONTAINER.search(pl.t or b.lty(pl.l) or ''):
+                continue
+            n += 1
+            L8.sites += 1
+            L8.fn(b.path)
+            proof = None
+            for (c, truth, D) in guards.known(cfg, E, blk.i):
+                sc = show(c)
+                if truth is True and re.match(r'Eq\(Vec::len\(.*\), 1\)$', sc):
+                    proof = 'len() == 1'
+                if truth is True and 'PartialEq::eq(' in sc and 'size_hint(' in sc and re.search(r'tuple\{(1, Option::Some\{1\}|0, Option::Some\{0\})\}', sc):
+                    proof = 'size_hint() == (n, Some(n)) with n in {0, 1}'
+            if proof:
+                L8.ok(sample={'function': b.path, 'container_dropped_at': b.loc(blk.term.sp), 'proof_of_single_source': proof})
+            else:
+                L8.violation(('sources-discarded', b.path), '%s can drop its container of sources at %s without a dominating proof that nothing is left in it (len() == 1 / exact size_hint): with an inexact size hint '
+                             '(filter, flat_map) all sources after the first are silently lost' % (b.path, b.loc(blk.term.sp)), where=b.loc(blk.term.sp))
+    L8.floor('drops of a source container in the multi-iterator constructors', n, 2)
